@@ -17,6 +17,7 @@
 import ast
 
 from sa import core
+from sa import formula
 from sa import pat
 from sa import pycfg
 from sa import tpl
@@ -77,22 +78,47 @@ def check(model, rep, tier):
             witness='def f(x, *, strict, bias=offset + 1)')
   pos_ok = kw_ok = False
   prm = er_fn.params()[0]
+
+  def erased(l, lst):
+    """[(index var, assignment)] : lst[<loop index>] = parse_expression('None')"""
+    out = []
+    for x in ast.walk(l):
+      if isinstance(x, ast.Assign) and isinstance(x.targets[0], ast.Subscript) and \
+          tpl.xnorm(er_fn, x.targets[0].value, x.value) == lst and \
+          core.norm(x.value) == "parser.parse_expression('None')":
+        out.append((core.norm(x.targets[0].slice), x))
+    return out
+
   for l in loops:
     it = tpl.xnorm(er_fn, l.iter, l.iter)
-    if it == 'range(len(%s.args.defaults))' % prm:
-      pos_ok = any(isinstance(s, ast.Assign) and isinstance(
-          s.targets[0], ast.Subscript) and tpl.xnorm(
-              er_fn, s.targets[0].value, s.value) == prm + '.args.defaults' and core.norm(s.targets[0].slice) ==
-                   core.norm(l.target) for s in l.body)
-    if it == 'enumerate(%s.args.kw_defaults)' % prm and isinstance(l.target, ast.Tuple):
-      idx, val = [core.norm(e) for e in l.target.elts]
-      for s in l.body:
-        if isinstance(s, ast.If) and core.norm(s.test) == '%s is not None' % val and \
-            not s.orelse:
-          kw_ok = any(isinstance(x, ast.Assign) and isinstance(
-              x.targets[0], ast.Subscript) and tpl.xnorm(
-                  er_fn, x.targets[0].value, x.value) == prm + '.args.kw_defaults' and
-                      core.norm(x.targets[0].slice) == idx for x in s.body)
+    for lst, kind in ((prm + '.args.defaults', 'pos'), (prm + '.args.kw_defaults', 'kw')):
+      idx = val = None
+      if it == 'range(len(%s))' % lst and isinstance(l.target, ast.Name):
+        idx = l.target.id
+      elif it == 'enumerate(%s)' % lst and isinstance(l.target, ast.Tuple) and \
+          len(l.target.elts) == 2:
+        idx, val = [core.norm(e) for e in l.target.elts]
+      if idx is None:
+        continue
+      es = [(i, x) for i, x in erased(l, lst) if i == idx]
+      if len(es) != 1:
+        continue
+
+      def at(e, val=val, lst=lst, idx=idx):
+        t = core.norm(e)
+        if val is not None and t == '%s is None' % val:
+          return 'NONE'
+        if t == '%s[%s] is None' % (core.norm(ast.parse(lst, mode='eval').body), idx):
+          return 'NONE'
+        return None
+      fake = ast.FunctionDef(name='_b', args=er_fn.node.args, body=l.body,
+                             decorator_list=[], lineno=l.lineno)
+      f = formula.condition_formula(fake, es[0][1], at)
+      if kind == 'pos':
+        pos_ok = formula.equivalent(f, formula.TRUE)[0]
+      else:
+        # exactly the slots that hold a default (None marks a required keyword-only)
+        kw_ok = formula.equivalent(f, ~formula.atom('NONE'))[0]
   rep.check(pos_ok, 'IFACE-ERASE', '%s:positional-defaults' % er_fn.site,
             'every positional default must be overwritten', line=er_fn.node.lineno)
   rep.check(kw_ok, 'IFACE-ERASE', '%s:keyword-only-defaults' % er_fn.site,
@@ -137,7 +163,8 @@ def check(model, rep, tier):
   kwx = {k.arg: tpl.xnorm(inst, k.value, ft[0]) for k in ft[0].keywords}
   want_cl = ('tuple((dict(zip(self._freevars, %s))[_c0] for _c0 in '
              'self._unbound_factory.__code__.co_freevars))' % p[1])
-  alt_cl = want_cl.replace('tuple((', 'tuple([').replace('))', '])', 1)
+  alt_cl = ('tuple([dict(zip(self._freevars, %s))[_c0] for _c0 in '
+            'self._unbound_factory.__code__.co_freevars])' % p[1])
   facts = {'closure': kwx.get('closure')}
   rep.check(kwx.get('closure') in (want_cl, alt_cl), 'IFACE-BIND',
             '%s:cells-by-name' % inst.site,
@@ -285,25 +312,37 @@ def check(model, rep, tier):
 
   # ---------------------------------------------------------------- IFACE-DECOR
   vf = model.func(FUNCS, 'FunctionTransformer.visit_FunctionDef')
-  cleared = appended = None
-  for n in ast.walk(vf.node):
-    if isinstance(n, ast.If) and 'level' in core.norm(n.test):
-      for s in n.body:
-        if isinstance(s, ast.Assign) and core.norm(s.targets[0]).endswith(
-            '.decorator_list') and isinstance(s.value, ast.List) and not s.value.elts:
-          cleared = core.norm(n.test)
-      for s in n.orelse:
-        if isinstance(s, ast.Expr) and 'decorator_list.append' in core.norm(s):
-          appended = core.norm(s)
-  rep.check(cleared is not None and cleared.endswith('.level <= 2'), 'IFACE-DECOR',
+  vp_ = vf.params()[0]
+  clear_st = [n for n in ast.walk(vf.node) if isinstance(n, ast.Assign) and
+              core.norm(n.targets[0]) == vp_ + '.decorator_list' and isinstance(
+                  n.value, ast.List) and not n.value.elts]
+  tag_st = [n for n in ast.walk(vf.node) if isinstance(n, ast.Call) and
+            core.norm(n.func) == vp_ + '.decorator_list.append' and n.args and
+            'autograph_artifact' in core.norm(n.args[0])]
+  level_atoms = set()
+
+  def lvl(e):
+    t = core.norm(e)
+    if t.endswith('.level <= 2') or t.endswith('.level < 3'):
+      level_atoms.add(t)
+      return 'TOP'
+    if t.endswith('.level == 2'):
+      return 'TOP2'
+    return None
+  f_clear = formula.condition_formula(vf.node, clear_st[0], lvl) if len(clear_st) == 1 else None
+  f_tag = formula.condition_formula(vf.node, tag_st[0], lvl) if len(tag_st) == 1 else None
+  ok1 = f_clear is not None and formula.equivalent(f_clear, formula.atom('TOP'))[0]
+  ok2 = f_tag is not None and formula.equivalent(f_tag, ~formula.atom('TOP'))[0]
+  rep.check(ok1, 'IFACE-DECOR',
             '%s:top-level-decorators-dropped' % vf.site,
             'decorators must be dropped exactly for the top-level function '
-            '(they were already applied to the original)', {'guard': cleared},
-            line=vf.node.lineno, witness='a decorated function: decorator re-applied')
-  rep.check(appended is not None and 'autograph_artifact' in appended, 'IFACE-DECOR',
+            '(they were already applied to the original)',
+            {'condition': str(f_clear)}, line=vf.node.lineno,
+            witness='a decorated function: decorator re-applied')
+  rep.check(ok2, 'IFACE-DECOR',
             '%s:inner-functions-tagged' % vf.site,
-            'inner functions must be tagged as artifacts', {'stmt': appended},
-            line=vf.node.lineno)
+            'inner functions (and only those) must be tagged as artifacts',
+            {'condition': str(f_tag)}, line=vf.node.lineno)
 
   # ---------------------------------------------------------------- IFACE-SELF
   cc = model.func(API, 'converted_call')
